@@ -32,11 +32,12 @@ type fScenario struct {
 type fFaults struct{ ms, kms, aead, alloc bool }
 
 type fWorld struct {
-	w    *World
-	f    *ae.SessionFactory
-	s    *ae.Session
-	rec  *ae.DataRowRecord
-	pay  []byte
+	w       *World
+	f       *ae.SessionFactory
+	s       *ae.Session
+	rec     *ae.DataRowRecord
+	pay     []byte
+	argFrom [2]int // marks into AEAD.KeyArgs / KMS.EncryptInputRefs (set after set-up and after each judged operation)
 }
 
 func (sc fScenario) setup() *fWorld {
@@ -179,6 +180,20 @@ func allZero(b []byte) bool {
 
 // wiped checks C10 on every retained transient buffer created at or after the marks.
 func (fw *fWorld) wiped(c *explore.Ctx, what string, kmsFrom, aeadFrom, srcFrom int, payloads ...[]byte) {
+	// key bytes handed to the AEAD / the KMS as arguments: the very slice must be secret memory or wiped by now
+	for i, b := range fw.w.AEAD.KeyArgs[fw.argFrom[0]:] {
+		if !allZero(b) && !fw.w.TF.Owns(b) {
+			c.Failf("C10:key-copy-passed-to-aead-not-wiped", "%s: a %d-byte key buffer passed to the AEAD (argument %d) is a copy outside secure memory and still readable after the operation returned", what, len(b), fw.argFrom[0]+i)
+			break
+		}
+	}
+	for i, b := range fw.w.KMS.EncryptInputRefs[fw.argFrom[1]:] {
+		if !allZero(b) && !fw.w.TF.Owns(b) {
+			c.Failf("C10:key-copy-passed-to-kms-not-wiped", "%s: the key buffer passed to KMS.EncryptKey (call %d) is a copy outside secure memory and still readable after the operation returned", what, fw.argFrom[1]+i)
+			break
+		}
+	}
+	fw.argFrom = [2]int{len(fw.w.AEAD.KeyArgs), len(fw.w.KMS.EncryptInputRefs)}
 	isPayload := func(b []byte) bool {
 		for _, p := range payloads {
 			if bytes.Equal(b, p) {
@@ -215,6 +230,7 @@ func (sc fScenario) body(ff fFaults) explore.Body {
 	return func(c *explore.Ctx) {
 		vsched.BeginQuiet()
 		fw := sc.setup()
+		fw.argFrom = [2]int{len(fw.w.AEAD.KeyArgs), len(fw.w.KMS.EncryptInputRefs)}
 		vsched.EndQuiet()
 		usedDRK := map[string]bool{}
 		for round := 0; round < 2; round++ {
